@@ -477,7 +477,7 @@ func TestC04(t *testing.T) {
 	replayKnown(t, "C04")
 	off := excluded()
 	scratch := filepath.Join(env.Out, fmt.Sprintf("c04-%d", env.Shard), "m")
-	rapidSetup(env.Pick(280, 6000), 4)
+	rapidSetup(env.Pick(280, 2800), 4)
 	rapid.Check(t, func(rt *rapid.T) {
 		c := c04Gen(rt, off)
 		msg, nm, nu := c04Judge(c, scratch)
